@@ -1,6 +1,7 @@
 package props
 
 import (
+	"log/slog"
 	"context"
 	"errors"
 	"fmt"
@@ -86,6 +87,10 @@ func runC15(src sim.Source, o Opts) *Result {
 	cfg := world.Cfg{NoMethod: true, AutoOptions: true, GlobalTS: src.Intn("gts", 3), CacheSize: sim.Pick(src, "cache", []int{0, 1, 3})}
 	// the function that answers a recovered panic: fox's default one, or a custom one that writes a page of its own
 	// (it must only be called when an answer is due: nothing written yet, connection not broken)
+	if src.Intn("logdisabled", 4) == 3 {
+		capt.MinLevel = slog.LevelError + 4 // the diagnostic record is dropped by the handler; everything else is as usual
+		res.inc("config_log_handler_disabled")
+	}
 	recoverFn := fox.DefaultHandleRecovery
 	if src.Intn("customrecovery", 3) == 0 {
 		recoverFn = func(c fox.Context, _ any) {
@@ -343,6 +348,13 @@ func runC15(src sim.Source, o Opts) *Result {
 						}
 					}
 					// the diagnostic record
+					if capt.MinLevel > slog.LevelError {
+						if len(capt.Records) != 0 {
+							res.fail("C15/log-record", "%s: %d records reached a log handler that does not enable ERROR", where, len(capt.Records))
+							return res
+						}
+						continue
+					}
 					if len(capt.Records) != 1 {
 						res.fail("C15/log-record", "%s: %d diagnostic records were logged, expected 1", where, len(capt.Records))
 						return res
